@@ -13,7 +13,7 @@ open Hts.Model
 def toBytesCodec (c : CodecFns) : BgzfBytes.Codec :=
   { inflate := fun b => match c.inflate b with
       | some (p, u) => .ok p u
-      | none => .fail 0
+      | none => .fail 0 0
     crc32 := c.crc32 }
 
 /-- length of the gzip header of a member under `h` -/
@@ -183,7 +183,8 @@ theorem readBlock_bytes (q : BgzfBytes.Quirks) (c : Codec) (h : Header) (p rest 
     simp only [BgzfBytes.readMember, hrh', hex, expectedMemberSize_bytes _ hb, hne1, hne2, if_false, hdrop, hneed]
     generalize c.deflate p ++ (le32 (c.crc32 p) ++ le32 (p.length % 2 ^ 32)) = B
     rw [if_pos (by simp), List.take_left, List.drop_left]
-  have hgz : BgzfBytes.gzBody (toBytesCodec c.toCodecFns) (c.deflate p ++ (le32 (c.crc32 p) ++ le32 (p.length % 2 ^ 32))) = .ok p := by
+  have hgz : BgzfBytes.gzBody (toBytesCodec c.toCodecFns) (c.deflate p ++ (le32 (c.crc32 p) ++ le32 (p.length % 2 ^ 32))) =
+      .ok (p, !p.isEmpty) := by
     have hinf : (toBytesCodec c.toCodecFns).inflate (c.deflate p ++ (le32 (c.crc32 p) ++ le32 (p.length % 2 ^ 32))) =
         .ok p (c.deflate p).length := by
       simp [toBytesCodec, c.inflate_deflate]
@@ -195,20 +196,20 @@ theorem readBlock_bytes (q : BgzfBytes.Quirks) (c : Codec) (h : Header) (p rest 
     rw [BgzfBytes.gzBody, hinf]
     simp only [List.drop_left, l8, t4, d4, t4', d8, leNat_le32 _ hcrc, leNat_le32 _ hisz, dite_false, BgzfBytes.readHeader]
     simp [toBytesCodec]
-  simp only [BgzfBytes.readBlock, hrm, hgz]
-  simp [BgzfBytes.MaxBlockSize, BgzfWriter.MaxBlockSize] at hp ⊢
-  omega
+  have hp' : p.length ≤ BgzfBytes.MaxBlockSize := hp
+  simp only [BgzfBytes.readBlock, hrm, hgz, BgzfBytes.readToEOF, hp', if_true]
 
 
 /-- the EOF marker as a member of C10's lemma library -/
 def markerM : Hts.Lemmas.BgzfBytes.Member :=
-  { m0 := 0, m1 := 0, m2 := 0, m3 := 0, xfl := 0, os := 255, cdata := [3, 0], crc := [0, 0, 0, 0], isize := [0, 0, 0, 0],
+  { header := Hts.Lemmas.BgzfBytes.canonHeader 0 0 0 0 0 255 28, cdata := [3, 0], crc := [0, 0, 0, 0], isize := [0, 0, 0, 0],
     payload := [] }
 
 theorem markerM_bytes : markerM.bytes = magicBlock := by decide
 
 theorem markerM_wf (c : Codec) : markerM.WellFramed (toBytesCodec c.toCodecFns) :=
-  { crcLen := rfl, isizeLen := rfl, sizeOk := by decide,
+  { hdrOk := Hts.Lemmas.BgzfBytes.canonHeader_ok _ 0 0 0 0 0 255 (by decide) (by decide),
+    crcLen := rfl, isizeLen := rfl,
     inflates := by simp [toBytesCodec, markerM, Hts.Lemmas.BgzfBytes.Member.body, c.inflate_marker],
     crcOk := by simp [toBytesCodec, markerM, BgzfBytes.leNat, c.crc32_nil],
     isizeOk := by simp [markerM, BgzfBytes.leNat],
